@@ -1,6 +1,7 @@
 import Ts.Lemmas.C19
 import Ts.Lemmas.C19b
 import Ts.Lemmas.C19c
+import Ts.Lemmas.C19d
 import Ts.Props.C03
 import Ts.Props.C06
 /-!
@@ -14,19 +15,43 @@ model-level facts that make its behaviour predictable.
 
 * `frame_packets_in_buffer`, `es_payload_in_packet`, `es_payload_in_buffer`: every slice an
   elementary-stream consumer is handed is a window of the packet being consumed, hence of the
-  buffer passed to `push` (slices are ranges `(offset, length)` in the model; nothing is copied).
+  buffer passed to `push`.  SCOPE: in the model an elementary-stream event carries a RANGE
+  `(offset, length)` computed from `pk.off`; the model has no "copied payload" alternative, so these
+  theorems cannot fail for the reason the property cares about.  They are range arithmetic: the
+  reported ranges lie inside the packet / the pushed buffer and denote the same bytes in both.  The
+  zero-copy clause for ES payloads (the slice handed to the consumer IS memory of the caller's
+  buffer) is carried by the harness's slice-address check, not by a theorem.
 * `single_packet_section_in_place` (+ `inplace_iff_started_here`, `buffered_iff_completed`,
   `section_fitting_first_packet_delivered_in_place`, `wellformed_in_place_iff_fits_first`):
   a whole-section delivery is flagged `inplace = some off` exactly when the section starts in this
   packet with all its `3 + section_length` bytes present; it then IS the window of the packet at
   `off`.  Deliveries from the reassembly buffer are exactly those completed by a continuation.
+  READING of the property's "every section … that fits in one transport packet": proved for
+  sections that LIE WHOLLY IN THE PACKET THAT STARTS THEM (all `3 + section_length` bytes present
+  after the `pointer_field` bytes of one packet).  It is NOT proved — and false of code and model —
+  for the other reading "every section of at most 183 bytes": a short section that the multiplexer
+  splits over two packets is reassembled in the filter's `Vec` and delivered from there
+  (`section_split_over_two_packets_is_copied`: a 16-byte PAT cut 13 + 3).
 * `bounded_init`, `bounded_push`, `retained_bounded`: for ARBITRARY pushed bytes the filter table
   never exceeds 8192 slots and no reassembly buffer exceeds 1024 bytes, so the retained-memory
   measure stays below the constant `RETAINED_MAX`.
-* `quiescent_step`, `steady_step_alloc_free`, `steady_state_no_alloc`, `steady_state_all_pushes`:
-  once every PID has a handler and the tables are stable, no dispatcher step constructs a handler,
-  grows the table, writes a reassembly buffer or queues a change.  These are statements about the
-  DIFFERENCE between the state before and after a step (`stepAllocFree`).
+* `quiescent_step`, `steady_step_alloc_free`, `steady_state_no_alloc`
+  (= `steady_state_no_alloc_partial`), `steady_state_all_pushes`: under the STATE-level hypothesis
+  `Steady` (every packet's PID has a handler; every packet on a PAT/PMT PID is a `RepeatPkt v` for
+  the version `v` its quiescent handler remembers: no unit start, or ≥ 8 section bytes after the
+  pointer bytes carrying `version_number = v` — the de-duplication layer's own test), no dispatcher
+  step constructs a handler, grows the table, writes a reassembly buffer or queues a change.  These
+  are statements about the DIFFERENCE between the state before and after a step (`stepAllocFree`).
+  PARTIAL with respect to the property's quantifier "any packetisation, any table repetition
+  pattern": see §7.
+* §7, input level: `C19_steady_full` states the property over INPUTS (warm-up realising a history;
+  then, on every table PID, only complete transmissions of copies of the table last applied there,
+  in ANY packetisation).  `C19_steady_full_false`: it is FALSE of code and model (known finding
+  F14: a repetition whose 3-byte header straddles two packets resets the de-duplication layer, the
+  next ordinary repetitions are re-applied, handlers are constructed).  `C19_steady_gap`,
+  `C19_steady_gap_transmissions`, `C19_steady_partial`: what IS proved from input-level hypotheses —
+  packetisations whose first share has ≥ 8 bytes (`WellFormedMux`), and the handler instance in each
+  table slot being the one that applied the current table.
 * `section_in_pushed_buffer`: an in-place section delivery is a window of the buffer passed to
   `push` (composition of `single_packet_section_in_place` with `frame`).
 * `changes_per_step_bounded`, `chg_high_water_bounded`, `retained'_bounded`: no packet queues more
@@ -38,6 +63,8 @@ model-level facts that make its behaviour predictable.
 * §6 restates every definition a reader has to trust (`Bounded`, `retained`, `SteadyPk`,
   `RepeatPkt`, `StartedHere`, …) as plain statements, and relates `Quiescent`/`RepeatPkt` to the
   C10 versions.
+* evaluated instances with a BUFFERED delivery (`pat_in_place_instance`, `pat_split_instance`,
+  the examples after `splitMid_inv`) and of `es_payload_in_buffer` through `frame` (`pesBuf_frame`).
 * `steady_state_instance`: the hypotheses of `steady_state_no_alloc`, `steady_state_all_pushes`,
   `retained_bounded` hold on a concrete run (PES packet + PAT repetition + PMT repetition in one
   push), checked by kernel evaluation.
@@ -127,7 +154,16 @@ theorem evRange_in_packet (tag pkoff : Nat) (e : App.Ev) (h : EvInPacket tag pko
 /-- **C19 (a).** For every packet `pk` of `push(buf)` consumed by a `.pes` handler: every event
 appended to the trace has the shape above, and every slice `(o, l)` it exposes (`evRange`) is a
 sub-slice of the buffer the caller passed to `push` — `base ≤ o`, `o + l ≤ base + buf.length` —
-with the same bytes whether read from the packet or from the caller's buffer. -/
+with the same bytes whether read from the packet or from the caller's buffer.
+
+SCOPE (what this does NOT show).  The model's `esCont` / `esBegin` events carry ranges computed from
+`pk.off`; there is no "copied" alternative for an ES payload in the model (unlike
+`Psi.Delivery.inplace` for sections), so this theorem cannot fail for the reason the property cares
+about: a Rust change that copies the payload into a scratch buffer before calling the consumer
+would leave the model, and this theorem, unchanged.  It is range arithmetic: the ranges the model
+reports lie inside the packet, inside the pushed buffer, and denote the same bytes in both.  The
+zero-copy clause itself is carried by the harness's address check (the slice a consumer receives
+lies inside the pushed buffer at exactly the range the model reports). -/
 theorem es_payload_in_buffer (buf : Bytes) (base : Nat) (pks : List Pk)
     (hf : frame buf base = .ok pks) (pk : Pk) (hpk : pk ∈ pks)
     (tag : Nat) (f : PesFilter.F) (c : App.Ctx) (h' : App.Handler) (c' : App.Ctx)
@@ -151,7 +187,10 @@ theorem es_payload_in_buffer (buf : Bytes) (base : Nat) (pks : List Pk)
 
 /-! ## 2. single-packet sections are delivered in place -/
 
-/-- **C19 (b).** For the whole-section chains (`CfgOk`: `Psi.rawSection`, `Psi.rawCompact`,
+/-- **C19 (b).** READING: "fits in one transport packet" is proved as "lies wholly in the packet that
+starts it"; a section of ≤ 183 bytes that is split over two packets falls under the second
+alternative (delivered from the buffer, `section_split_over_two_packets_is_copied`).
+For the whole-section chains (`CfgOk`: `Psi.rawSection`, `Psi.rawCompact`,
 `Psi.table`), every 188-byte packet `p`, every state satisfying the C03 invariant: each delivery
 `d` of `Psi.consume` is either
 * produced by the section START in this packet (`StartedHere`: unit start, the start passes the
@@ -270,8 +309,11 @@ theorem section_fitting_first_packet_delivered_in_place (cfg : Psi.Cfg) (hc : Cf
     omega
 
 /-- Instantiating C03 `section_reassembled`: for a well-formed section `S` in a well-formed
-packetisation `m`, `S` is delivered exactly once, and in place iff it fits the first packet
-(`m.k = S.length`); otherwise (`m.k < S.length`, multi-packet) it comes from the buffer. -/
+packetisation `m`, `S` is delivered exactly once, and in place iff the packet that starts it carries
+ALL of it (`m.k = S.length`); otherwise (`m.k < S.length`: the multiplexer cut it, however short `S`
+is) it comes from the buffer.  "Fits the first packet" here means "is wholly in the first packet",
+not "`S.length ≤ 183`"; instances of both cases on the same 16-byte PAT: `pat_in_place_instance`,
+`pat_split_instance`. -/
 theorem wellformed_in_place_iff_fits_first (kind : Kind) (S : Bytes) (hS : WellFormedSection kind S)
     (m : Mux) (hm : WellFormedMux kind S m) (st : Psi.St) (hst : PsiInv kind st)
     (off : Nat) (rest : List Lemmas.C03.Pl) (hus : ∀ q ∈ rest, q.us = false)
@@ -644,7 +686,9 @@ unchanged, and the step's change list is `[]` — and the table is again in the 
 state-shape equality, see `stepAllocFree_iff`; that no step even REACHES an allocating operation of
 the model is `steady_state_no_mayAlloc` (§5).  Neither says anything about the allocator itself
 (transient allocations, `Vec` growth policy): that is what the harness's counting
-`#[global_allocator]` observes. -/
+`#[global_allocator]` observes.
+PARTIAL: `Steady` is a state-level hypothesis, not "tables are stable, any packetisation"; see
+`steady_state_no_alloc_partial` and §7 (`C19_steady_full_false`, known finding F14). -/
 theorem steady_state_no_alloc (t : Tab App.Handler) (c : App.Ctx) (buf : Bytes) (base : Nat)
     (pks : List Pk) (tcf : Tab App.Handler × App.Ctx) (hsc : c.cfg.script = [])
     (hf : frame buf base = .ok pks) (hst : Steady t pks)
@@ -1169,5 +1213,462 @@ state) reaches the buffer layer, and a packet on an unknown PID constructs a han
 example : mayAlloc (App.init {}) patPk = true
     ∧ mayAlloc (App.init {}) ⟨pid5Pkt, 0, 5, false, false⟩ = true := by
   constructor <;> decide +kernel
+
+
+/-! ### the reading of "fits in one transport packet"; instances with a BUFFERED delivery -/
+
+section SplitSection
+open Ts.Lemmas.C19d (patSecV0 splitPkt1 splitPkt2 splitMux splitMid split_facts split_consume)
+
+/-- **Counter-reading of "every section … that fits in one transport packet".**  The 16-byte PAT
+`patSecV0` (16 ≤ 183: it fits a packet, and IS delivered in place when a packet carries it whole,
+`pat_in_place_instance`) transmitted with `pointer_field = 170`: the unit-start packet `splitPkt1` has
+room for only its first 13 bytes, the continuation packet `splitPkt2` carries the last 3.  From a fresh
+filter — the PAT/PMT chain `Psi.table` as well as the raw section-syntax chain — the first packet
+delivers nothing (13 bytes are COPIED into the reassembly buffer, 3 owed) and the second delivers the
+section with `inplace = none`: from the filter's buffer, not as a sub-slice of the pushed buffer.
+So the in-place theorems are about sections that LIE WHOLLY IN THE PACKET THAT STARTS THEM, not about
+all sections of at most 183 bytes. -/
+theorem section_split_over_two_packets_is_copied :
+    patSecV0.length = 16 ∧ WellFormedSection .syntax patSecV0
+    ∧ splitPkt1.length = 188 ∧ splitPkt2.length = 188
+    ∧ plOf splitPkt1 = some ⟨true, splitMux.first patSecV0, 4⟩
+    ∧ byteD (splitMux.first patSecV0) 0 = 170
+    ∧ ((splitMux.first patSecV0).drop 1).drop 170 = patSecV0.take 13
+    ∧ plOf splitPkt2 = some ⟨false, patSecV0.drop 13 ++ List.replicate 181 0xff, 4⟩
+    ∧ (∃ s1 s2, Psi.consume Psi.table {} splitPkt1 = .ok (s1, [])
+        ∧ s1.buf = patSecV0.take 13 ∧ s1.remaining = some 3
+        ∧ Psi.consume Psi.table s1 splitPkt2 = .ok (s2, [⟨patSecV0, none⟩]))
+    ∧ (∃ s1 s2, Psi.consume Psi.rawSection {} splitPkt1 = .ok (s1, [])
+        ∧ s1.buf = patSecV0.take 13 ∧ s1.remaining = some 3
+        ∧ Psi.consume Psi.rawSection s1 splitPkt2 = .ok (s2, [⟨patSecV0, none⟩])) := by
+  obtain ⟨a1, a2, a3, a4, a5, a6, _, _⟩ := split_facts
+  obtain ⟨c1, c2, c3, c4⟩ := split_consume
+  exact ⟨a6, a5, a1, a2, a3, by decide +kernel, by decide +kernel, a4,
+    ⟨_, _, c1, rfl, rfl, c2⟩, ⟨_, _, c3, rfl, rfl, c4⟩⟩
+
+/-- `wellformed_in_place_iff_fits_first`, case `m.k = S.length`: PAT v0 whole in one unit-start payload
+(`pointer_field = 0`) is delivered in place at packet offset `4 + 1 + 0` -/
+theorem pat_in_place_instance :
+    ∃ sfin d, runPl (cfgOf .syntax) {} [⟨true, (Lemmas.C10.muxOf patSecV0).first patSecV0, 4⟩]
+        = .ok (sfin, [d]) ∧ d.bytes = patSecV0 ∧ d.inplace = some 5 := by
+  obtain ⟨_, _, _, _, hS, _, _, hm⟩ := split_facts
+  obtain ⟨sfin, d, h1, h2, h3, _⟩ := wellformed_in_place_iff_fits_first .syntax patSecV0 hS
+    (Lemmas.C10.muxOf patSecV0) hm {} (Lemmas.C03.psiInv_of_none _ _ rfl) 4 [] (by simp) rfl
+  rw [Lemmas.C10.preSpec_idle _ _ _ rfl] at h1
+  exact ⟨sfin, d, h1, h2, h3.2 (by decide +kernel)⟩
+
+/-- `wellformed_in_place_iff_fits_first`, case `m.k < S.length`: the SAME 16-byte section in the
+well-formed packetisation `splitMux` (13 + 3) is delivered once, from the buffer -/
+theorem pat_split_instance :
+    ∃ sfin d, runPl (cfgOf .syntax) {}
+        [⟨true, splitMux.first patSecV0, 4⟩, ⟨false, patSecV0.drop 13 ++ List.replicate 181 0xff, 4⟩]
+        = .ok (sfin, [d]) ∧ d.bytes = patSecV0 ∧ d.inplace = none ∧ splitMux.k < patSecV0.length := by
+  obtain ⟨_, _, _, _, hS, _, hm, _⟩ := split_facts
+  obtain ⟨sfin, d, h1, h2, _, h4⟩ := wellformed_in_place_iff_fits_first .syntax patSecV0 hS
+    splitMux hm {} (Lemmas.C03.psiInv_of_none _ _ rfl) 4
+    [⟨false, patSecV0.drop 13 ++ List.replicate 181 0xff, 4⟩] (by simp) rfl
+  rw [Lemmas.C10.preSpec_idle _ _ _ rfl] at h1
+  exact ⟨sfin, d, h1, h2, h4.2 (by decide +kernel), by decide +kernel⟩
+
+/-- the filter state between the two packets satisfies the C03 invariant -/
+theorem splitMid_inv : PsiInv (kindOf Psi.table) splitMid := by
+  intro n hn
+  cases hn
+  decide
+
+/-- `buffered_iff_completed` on a delivery with `inplace = none`: the delivery of the second packet
+is `CompletedBy` the state's buffer (13 bytes ≥ 3) plus the 3 owed bytes of the continuation payload -/
+example : ∃ q, plOf splitPkt2 = some q
+    ∧ CompletedBy splitMid (contBytes q.us q.bytes) ⟨patSecV0, none⟩ ∧ 3 ≤ splitMid.buf.length :=
+  (buffered_iff_completed Psi.table cfgOk_table splitMid splitMid_inv splitPkt2 split_facts.2.1 _ _
+    split_consume.2.1 ⟨patSecV0, none⟩ (List.mem_singleton.2 rfl)).1 rfl
+
+/-- `inplace_iff_started_here` on the same delivery: it is NOT flagged in place, so it was not started
+in this packet -/
+example : ¬ ∃ q, plOf splitPkt2 = some q ∧ q.us = true
+    ∧ StartedHere Psi.table q.bytes q.off ⟨patSecV0, none⟩ := by
+  intro hx
+  have := (inplace_iff_started_here Psi.table cfgOk_table splitMid splitMid_inv splitPkt2
+    split_facts.2.1 _ _ split_consume.2.1 ⟨patSecV0, none⟩ (List.mem_singleton.2 rfl)).2 hx
+  cases this
+
+/-- `single_packet_section_in_place` on the same delivery takes its SECOND alternative -/
+example : ∃ q, plOf splitPkt2 = some q
+    ∧ CompletedBy splitMid (contBytes q.us q.bytes) ⟨patSecV0, none⟩ := by
+  obtain ⟨q, hq, hcase⟩ := single_packet_section_in_place Psi.table cfgOk_table splitMid splitMid_inv
+    splitPkt2 split_facts.2.1 _ _ split_consume.2.1 ⟨patSecV0, none⟩ (List.mem_singleton.2 rfl)
+  rcases hcase with ⟨_, _, hin, _⟩ | ⟨hc, _⟩
+  · cases hin
+  · exact ⟨q, hq, hc⟩
+
+end SplitSection
+
+/-! ### `es_payload_in_buffer` through `frame` -/
+
+/-- a PES packet start on PID 0x100 as `frame` produces it at global offset 376 (`pesPk` of the
+examples above with the PID bits set in the header bytes): unit start, PES header `00 00 01 e0 00 00`,
+parsed contents `80 00 00`, stuffing -/
+def pesPkF : Pk :=
+  ⟨Lemmas.C08.mkPkt 0x41 0x10 (Lemmas.C08.pesStart ++ [0x80, 0x00, 0x00]), 376, 0x100, false, false⟩
+
+/-- a push of two packets: the PID-5 packet, then the bytes of `pesPkF` -/
+def pesBuf : Bytes := pid5Pkt ++ pesPkF.bytes
+
+set_option maxRecDepth 20000 in
+theorem pesBuf_frame : frame pesBuf 188 = .ok [⟨pid5Pkt, 188, 5, false, false⟩, pesPkF] := by
+  decide +kernel
+
+set_option maxRecDepth 20000 in
+/-- `es_payload_in_buffer` applies to the second packet of `push(pesBuf)` (188 bytes pushed before):
+the `begin_packet` event exposes the range (389, 175); it lies inside the packet `[376, 564)` and
+inside the pushed buffer `[188, 188 + 376)`, and denotes the same 175 bytes in the packet (from offset
+13) and in the caller's buffer (from offset 201) -/
+example : ∃ h' c' bi, App.consume (.pes 7 {}) { cfg := {} } pesPkF = .ok (h', c', [])
+    ∧ c'.trace = [.esBegin 7 bi, .esStart 7] ∧ bi.pl = some (389, 175)
+    ∧ 188 ≤ 389 ∧ 389 + 175 ≤ 188 + pesBuf.length
+    ∧ (pesPkF.bytes.drop 13).take 175 = (pesBuf.drop 201).take 175 := by
+  have hc : ∃ h' c' bi, App.consume (.pes 7 {}) { cfg := {} } pesPkF = .ok (h', c', [])
+      ∧ c'.trace = [.esBegin 7 bi, .esStart 7] ∧ bi.pl = some (389, 175) := ⟨_, _, _, rfl, rfl, rfl⟩
+  obtain ⟨h', c', bi, h1, h2, h3⟩ := hc
+  obtain ⟨out, e1, e2⟩ := es_payload_in_buffer pesBuf 188 _ pesBuf_frame pesPkF (by simp) 7 {}
+    { cfg := {} } h' c' [] h1
+  have hout : out = [.esBegin 7 bi, .esStart 7] := by
+    have : c'.trace = out ++ [] := e1
+    rw [List.append_nil] at this
+    rw [← this, h2]
+  subst hout
+  obtain ⟨_, hr⟩ := e2 (.esBegin 7 bi) (by simp)
+  obtain ⟨_, _, _, _, r5, r6, r7⟩ := hr 389 175 h3
+  exact ⟨h', c', bi, h1, h2, h3, r5, r6, r7⟩
+
+/-! ## 7. the steady state at INPUT level (known finding F14)
+
+`Steady` (§4, §5) is a hypothesis on the STATE and on the bytes the de-duplication layer reads.  The
+property's quantifier is over inputs: "all well-formed steady-state streams (any packetisation, any
+table repetition pattern)".  `C19_steady_full` states that; it is false (`C19_steady_full_false`).
+`C19_steady_gap*` / `C19_steady_partial` say which input-level hypotheses DO give `Steady`. -/
+
+section InputLevel
+open Ts.Lemmas.C19d (LegalMux TransmitsWith TransmitsAnyCut StableInputWith StableInput frameAll
+  LastTableOn CopyOf tablePid)
+open Ts.Spec.RoutingHistory (Event initRoute WF Realises run)
+
+/-- **C19 (d), partial** — `steady_state_no_alloc` under its other name.  What makes it PARTIAL with
+respect to the property ("once all PIDs have been seen and the tables are stable … any packetisation,
+any table repetition pattern") is the hypothesis `hst : Steady t pks`: for every packet of the push,
+1. its PID has a handler in `t` (`t.contains pk.pid`), and
+2. if that handler is a PAT/PMT filter with section state `s`: `s` is quiescent at some version `v`
+   (`s.lastVersion = some v ∧ s.remaining = none`) and the packet is a `RepeatPkt v`: it has no
+   payload, or no unit start, or its unit-start payload carries AT LEAST 8 SECTION BYTES after the
+   `pointer_field` bytes, with the syntax bit set, `section_length ≤ 1021` and `version_number = v`.
+Clause 2 is the de-duplication layer's own version test, copied into the hypothesis: it is a
+condition on the filter's state and on where the multiplexer cut the section, not "the table is
+unchanged".  OUTSIDE it: a repetition whose first share has fewer than 8 bytes.  With fewer than 3
+(known finding F14, `C19_steady_full_false`) the filter chain is reset, the NEXT ordinary repetition
+is re-applied, and handlers are constructed in steady state.  `C19_steady_gap_transmissions` derives
+`Steady` from an input-level hypothesis that includes the 8-byte clause. -/
+theorem steady_state_no_alloc_partial (t : Tab App.Handler) (c : App.Ctx) (buf : Bytes) (base : Nat)
+    (pks : List Pk) (tcf : Tab App.Handler × App.Ctx) (hsc : c.cfg.script = [])
+    (hf : frame buf base = .ok pks) (hst : Steady t pks)
+    (h : push App.sem (t, c) buf base = .ok tcf) :
+    runAllocFree (t, c) pks ∧ tcf.1.length = t.length ∧ tcf.2.nextTag = c.nextTag
+      ∧ (∀ p, psiBuf tcf.1 p = psiBuf t p) ∧ (∀ p, slotKey tcf.1 p = slotKey t p)
+      ∧ Steady tcf.1 pks ∧ tcf.2.cfg.script = [] :=
+  steady_state_no_alloc t c buf base pks tcf hsc hf hst h
+
+/-- **C19 (d) at full strength, over inputs.**  For every configuration without recorder script,
+every history `evs` of applied PAT/PMT versions, elementary-stream packets and repetitions
+(`Spec.RoutingHistory`), every list of warm-up pushes `warm` whose packets `pks0` realise it
+(`Realises`), run from `Demultiplex::new` to `(t, c)`; every list of further pushes `steady` with
+packets `pks`, such that (`StableInput`)
+* every PID occurring in `pks` has a handler after the warm-up, and
+* for every PID `p` occurring in `pks` that carries tables after the history, the packets of PID `p`
+  are, in order, the packets of COMPLETE transmissions — any number, each in ANY packetisation
+  (`LegalMux` = `WellFormedMux` without the minimum first share), with anything interleaved on other
+  PIDs — of one section `tbl p` that is a copy (`CopyOf`: intact, same `table_id`,
+  `version_number` and contents) of the table LAST applied on `p` in the history:
+if the whole run completes, NO HANDLER IS CONSTRUCTED during the steady pushes (`nextTag`, bumped by
+every `construct`, is unchanged).  This is the weakest of the conclusions of
+`steady_state_all_pushes`; the statement is false already for it. -/
+def C19_steady_full : Prop :=
+  ∀ (cfg : App.Cfg) (evs : List Event) (tbl : Nat → Bytes) (warm steady : List Bytes)
+    (pks0 pks : List Pk) (t : Tab App.Handler) (c : App.Ctx) (tcf : Tab App.Handler × App.Ctx),
+    cfg.script = [] →
+    frameAll warm 0 = .ok pks0 → WF initRoute evs → Realises initRoute evs pks0 →
+    App.runApp cfg warm = .ok (t, c) →
+    frameAll (warm ++ steady) 0 = .ok (pks0 ++ pks) →
+    StableInput evs tbl t pks →
+    App.runApp cfg (warm ++ steady) = .ok tcf →
+    tcf.2.nextTag = c.nextTag
+
+/-- **Known finding F14: `C19_steady_full` is FALSE of the pinned code (the model agrees).**
+Witness = the probe `F14 steady b0t0 …` (`/verif/known_findings.json`), as byte lists
+(`Lemmas.C19d.f14Warm`, `f14St1`, `f14St2`, `f14St3`):
+warm-up PAT v0 {1 → 0x100}, PMT v0 {H.264 on 0x101}, start of a PES packet on 0x101 — it realises the
+history `f14Hist` and constructs the handlers 0, 1, 2; then three pushes that carry, on PID 0, only
+complete transmissions of the SAME PAT v0 and, on PID 0x100, only the SAME PMT v0, between
+elementary-stream packets.  The second PAT transmission is cut after 2 bytes (`pointer_field = 181`;
+`straddleMux`, a `LegalMux` that is not a `WellFormedMux`).  That start resets the PAT filter's
+chain — remembered version forgotten —, the next ordinary PAT v0 is RE-APPLIED (`Pmt(0x100, 1)`
+constructed again, tag 3), the rebuilt PMT filter re-applies PMT v0 (`Stream(…0x101…)` constructed
+again, tag 4): `nextTag` is 3 after the warm-up and 5 at the end.  Real code on the same bytes:
+`constructs = 0, 2, 0`, `allocs = 0, 3, 0` per steady push. -/
+theorem C19_steady_full_false : ¬ C19_steady_full := by
+  intro h
+  obtain ⟨pks0, h0, hk⟩ := Lemmas.C19d.chk_ok _ _ Lemmas.C19d.f14Check_true
+  obtain ⟨pall, h1, hk⟩ := Lemmas.C19d.chk_ok _ _ hk
+  obtain ⟨tc0, h2, hk⟩ := Lemmas.C19d.chk_ok _ _ hk
+  obtain ⟨tc1, _, hk⟩ := Lemmas.C19d.chk_ok _ _ hk
+  obtain ⟨tc2, _, hk⟩ := Lemmas.C19d.chk_ok _ _ hk
+  obtain ⟨tc3, h5, hk⟩ := Lemmas.C19d.chk_ok _ _ hk
+  simp only [Bool.and_eq_true, beq_iff_eq, List.all_eq_true, Bool.not_eq_true'] at hk
+  obtain ⟨⟨⟨⟨⟨⟨⟨⟨⟨b1, b2⟩, b3⟩, _⟩, _⟩, b6⟩, b7⟩, _⟩, _⟩, _⟩ := hk
+  subst b1
+  subst b2
+  have hfin := h {} Lemmas.C19d.f14Hist Lemmas.C19d.f14Tbl [Lemmas.C19d.f14Warm]
+    [Lemmas.C19d.f14St1, Lemmas.C19d.f14St2, Lemmas.C19d.f14St3] _ _ tc0.1 tc0.2 tc3 rfl h0
+    Lemmas.C19d.f14_wf Lemmas.C19d.f14_realises h2 h1 (Lemmas.C19d.f14_stable tc0.1 b7) h5
+  have e0 : tc0.2.nextTag = 3 := congrArg Prod.fst b3
+  have e3 : tc3.2.nextTag = 5 := congrArg Prod.fst b6
+  omega
+
+/-- `pushMayAlloc tc buf base`: some step of `push(buf)` from `tc` has `mayAlloc` -/
+theorem pushMayAlloc_eq (tc : Tab App.Handler × App.Ctx) (buf : Bytes) (base : Nat) :
+    Lemmas.C19d.pushMayAlloc tc buf base =
+      (match frame buf base with
+       | .ok pks => runMayAlloc tc pks
+       | .panic _ => false) := by
+  unfold Lemmas.C19d.pushMayAlloc Lemmas.C19d.chk
+  cases frame buf base <;> rfl
+
+/-- **F14 and its control on the exact probe bytes, push by push** (`runApp {}` = harness mode
+`b0t0`).  Probe: after the warm-up 3 handlers have been constructed and the table has 258 slots; the
+first steady push constructs nothing and has no `mayAlloc` step; the second (the one containing the
+straddling PAT v0 and then an ordinary PAT v0 / PMT v0) constructs 2 handlers and has `mayAlloc`
+steps; the third again nothing — the model's `constructs = 0, 2, 0`, as the real code.  Control
+(`f14cSt2`: the straddling transmission replaced by two ordinary ones): nothing in any push. -/
+theorem F14_steady_counterexample :
+    (∃ tc0 tc1 tc2 tc3,
+      App.runApp {} [Lemmas.C19d.f14Warm] = .ok tc0
+      ∧ App.runApp {} [Lemmas.C19d.f14Warm, Lemmas.C19d.f14St1] = .ok tc1
+      ∧ App.runApp {} [Lemmas.C19d.f14Warm, Lemmas.C19d.f14St1, Lemmas.C19d.f14St2] = .ok tc2
+      ∧ App.runApp {} [Lemmas.C19d.f14Warm, Lemmas.C19d.f14St1, Lemmas.C19d.f14St2, Lemmas.C19d.f14St3]
+          = .ok tc3
+      ∧ (tc0.2.nextTag, tc0.1.length) = (3, 258) ∧ (tc1.2.nextTag, tc1.1.length) = (3, 258)
+      ∧ (tc2.2.nextTag, tc2.1.length) = (5, 258) ∧ (tc3.2.nextTag, tc3.1.length) = (5, 258)
+      ∧ Lemmas.C19d.pushMayAlloc tc0 Lemmas.C19d.f14St1 564 = false
+      ∧ Lemmas.C19d.pushMayAlloc tc1 Lemmas.C19d.f14St2 1128 = true
+      ∧ Lemmas.C19d.pushMayAlloc tc2 Lemmas.C19d.f14St3 2256 = false)
+    ∧ (∃ tc0 tc1 tc2 tc3,
+      App.runApp {} [Lemmas.C19d.f14Warm] = .ok tc0
+      ∧ App.runApp {} [Lemmas.C19d.f14Warm, Lemmas.C19d.f14St1] = .ok tc1
+      ∧ App.runApp {} [Lemmas.C19d.f14Warm, Lemmas.C19d.f14St1, Lemmas.C19d.f14cSt2] = .ok tc2
+      ∧ App.runApp {} [Lemmas.C19d.f14Warm, Lemmas.C19d.f14St1, Lemmas.C19d.f14cSt2, Lemmas.C19d.f14St3]
+          = .ok tc3
+      ∧ (tc0.2.nextTag, tc0.1.length) = (3, 258) ∧ (tc1.2.nextTag, tc1.1.length) = (3, 258)
+      ∧ (tc2.2.nextTag, tc2.1.length) = (3, 258) ∧ (tc3.2.nextTag, tc3.1.length) = (3, 258)
+      ∧ Lemmas.C19d.pushMayAlloc tc0 Lemmas.C19d.f14St1 564 = false
+      ∧ Lemmas.C19d.pushMayAlloc tc1 Lemmas.C19d.f14cSt2 1128 = false
+      ∧ Lemmas.C19d.pushMayAlloc tc2 Lemmas.C19d.f14St3 2256 = false) := by
+  constructor
+  · obtain ⟨pks0, _, hk⟩ := Lemmas.C19d.chk_ok _ _ Lemmas.C19d.f14Check_true
+    obtain ⟨pall, _, hk⟩ := Lemmas.C19d.chk_ok _ _ hk
+    obtain ⟨tc0, h2, hk⟩ := Lemmas.C19d.chk_ok _ _ hk
+    obtain ⟨tc1, h3, hk⟩ := Lemmas.C19d.chk_ok _ _ hk
+    obtain ⟨tc2, h4, hk⟩ := Lemmas.C19d.chk_ok _ _ hk
+    obtain ⟨tc3, h5, hk⟩ := Lemmas.C19d.chk_ok _ _ hk
+    simp only [Bool.and_eq_true, beq_iff_eq, Bool.not_eq_true'] at hk
+    obtain ⟨⟨⟨⟨⟨⟨⟨⟨⟨_, _⟩, b3⟩, b4⟩, b5⟩, b6⟩, _⟩, b8⟩, b9⟩, b10⟩ := hk
+    exact ⟨tc0, tc1, tc2, tc3, h2, h3, h4, h5, b3, b4, b5, b6, b8, b9, b10⟩
+  · obtain ⟨pall, _, hk⟩ := Lemmas.C19d.chk_ok _ _ Lemmas.C19d.f14cCheck_true
+    obtain ⟨tc0, h2, hk⟩ := Lemmas.C19d.chk_ok _ _ hk
+    obtain ⟨tc1, h3, hk⟩ := Lemmas.C19d.chk_ok _ _ hk
+    obtain ⟨tc2, h4, hk⟩ := Lemmas.C19d.chk_ok _ _ hk
+    obtain ⟨tc3, h5, hk⟩ := Lemmas.C19d.chk_ok _ _ hk
+    simp only [Bool.and_eq_true, beq_iff_eq, Bool.not_eq_true'] at hk
+    obtain ⟨⟨⟨⟨⟨⟨⟨⟨⟨_, b3⟩, b4⟩, b5⟩, b6⟩, b8⟩, b9⟩, b10⟩, _⟩, _⟩ := hk
+    exact ⟨tc0, tc1, tc2, tc3, h2, h3, h4, h5, b3, b4, b5, b6, b8, b9, b10⟩
+
+/-- the witness's packetisation: legal, NOT well-formed (its first share has 2 < 8 bytes); every
+other packetisation of the probe is well-formed -/
+theorem F14_only_straddle_is_short :
+    LegalMux Lemmas.C19d.patSecV0 Lemmas.C19d.straddleMux
+    ∧ ¬ WellFormedMux .syntax Lemmas.C19d.patSecV0 Lemmas.C19d.straddleMux
+    ∧ WellFormedMux .syntax Lemmas.C19d.patSecV0 (Lemmas.C10.muxOf Lemmas.C19d.patSecV0)
+    ∧ WellFormedMux .syntax Lemmas.C19d.pmtSecV0 (Lemmas.C10.muxOf Lemmas.C19d.pmtSecV0) :=
+  Lemmas.C19d.straddleMux_legal
+
+/-! ### what IS proved from input-level hypotheses -/
+
+/-- **Gap, packet level.**  If every packet of the list is either
+* on a PID holding a PAT/PMT handler quiescent at some version `v` and is a C10 repetition packet of
+  version `v` (`Lemmas.C10.RepPacket`: a 188-byte packet without payload, or with a continuation
+  payload, or whose unit-start payload is the first payload of a `WellFormedMux` packetisation — first
+  share ≥ 8 bytes — of a well-formed version-`v` section), or
+* a 188-byte packet on a PID holding a handler without section filter (PES filter or recorder),
+then `Steady t pks`; hence (no recorder script) no step of the run has `mayAlloc`. -/
+theorem C19_steady_gap (t : Tab App.Handler) (pks : List Pk)
+    (h : ∀ pk ∈ pks,
+      (∃ hd v, t.get pk.pid = some hd ∧ Lemmas.C10.QuiescentH v hd ∧ Lemmas.C10.RepPacket v pk.bytes)
+      ∨ (pk.bytes.length = 188 ∧ ∃ hd, t.get pk.pid = some hd ∧ psiOf hd = none)) :
+    Steady t pks ∧ ∀ c : App.Ctx, c.cfg.script = [] → runMayAlloc (t, c) pks = false := by
+  have hst : Steady t pks := by
+    intro pk hpk
+    rcases h pk hpk with ⟨hd, v, hg, hq, hr⟩ | ⟨hl, hd, hg, hn⟩
+    · exact steadyPk_of_c10 t pk v hd hg hq hr
+    · refine ⟨hl, (Tab.contains_eq_true_iff t pk.pid).2 ⟨hd, hg⟩, ?_⟩
+      intro h' s hg' hs
+      rw [hg] at hg'
+      injection hg' with hg'
+      subst hg'
+      rw [hn] at hs
+      cases hs
+  exact ⟨hst, fun c hsc => steady_run_mayAlloc_false pks t c hsc hst⟩
+
+/-- `C19_steady_gap` is not vacuous: the hand-built table `steadyTab` (a PAT filter quiescent at
+version 0 on PID 0) and an ordinary one-packet transmission of PAT v0 -/
+example : Steady steadyTab [Lemmas.C19d.pkAt (Lemmas.C19d.patPktCc 1 Lemmas.C19d.patSecV0) 4 0]
+    ∧ ∀ c : App.Ctx, c.cfg.script = [] →
+        runMayAlloc (steadyTab, c) [Lemmas.C19d.pkAt (Lemmas.C19d.patPktCc 1 Lemmas.C19d.patSecV0) 4 0]
+          = false := by
+  obtain ⟨_, a1, _⟩ := Lemmas.C19d.f14_transmissions
+  obtain ⟨_, _, w0, _⟩ := Lemmas.C19d.straddleMux_legal
+  obtain ⟨_, _, _, _, hS, hl, _, _⟩ := Lemmas.C19d.split_facts
+  have hrep := Lemmas.C19d.repPacket_of_transmits 0 Lemmas.C19d.patSecV0 _ hS (by rw [hl]; decide)
+    (Lemmas.C19d.txCheck_sound_with _ _ _ _ w0 a1) _ (List.mem_singleton.2 rfl)
+  rw [Lemmas.C19d.f14_versions.1] at hrep
+  refine C19_steady_gap steadyTab _ ?_
+  intro pk hpk
+  rw [List.mem_singleton] at hpk
+  subst hpk
+  exact Or.inl ⟨_, 0, rfl, ⟨rfl, rfl⟩, hrep⟩
+
+/-- **Gap, transmission level: input-level hypothesis ⇒ `Steady`.**  `StableInputWith
+(WellFormedMux .syntax)` is the hypothesis of `C19_steady_full` PLUS "the first share of every
+transmission has at least 8 bytes".  Together with
+* `hlen`: the packets have 188 bytes (true of framed packets), and
+* `hagree`: on the steady PIDs the table after the warm-up agrees with the history — a PID that
+  carries tables holds a PAT/PMT handler quiescent at the version of the current table (i.e. the
+  handler INSTANCE in the slot is the one that applied it; fails after known findings F8/F14 and F9),
+  any other PID holds a handler without section filter —
+it gives `Steady t pks`.  `hagree` is a hypothesis here because the theorems that derive it from a
+realised history (`Props.C05History.routing_refines`, `Props.C10.C10_partial`) are downstream of this
+file in the import order. -/
+theorem C19_steady_gap_transmissions (evs : List Event) (tbl : Nat → Bytes) (t : Tab App.Handler)
+    (pks : List Pk) (hin : StableInputWith (WellFormedMux .syntax) evs tbl t pks)
+    (hlen : ∀ pk ∈ pks, pk.bytes.length = 188)
+    (hagree : ∀ pk ∈ pks,
+      (tablePid (run initRoute evs) pk.pid = true
+        ∧ ∃ h, t.get pk.pid = some h ∧ Lemmas.C10.QuiescentH (Lemmas.C10.versionOf (tbl pk.pid)) h)
+      ∨ (tablePid (run initRoute evs) pk.pid = false ∧ ∃ h, t.get pk.pid = some h ∧ psiOf h = none)) :
+    Steady t pks :=
+  Lemmas.C19d.steady_of_stable evs tbl t pks hin hlen hagree
+
+/-- the hypothesis of `C19_steady_gap_transmissions` is that of `C19_steady_full` plus the 8-byte
+clause, nothing else -/
+theorem stableInput_of_wellFormed (evs : List Event) (tbl : Nat → Bytes) (t : Tab App.Handler)
+    (pks : List Pk) (h : StableInputWith (WellFormedMux .syntax) evs tbl t pks) :
+    StableInput evs tbl t pks :=
+  h.mono fun S m hm => ((Lemmas.C19d.wellFormedMux_iff_legal .syntax S m).1 hm).1
+
+/-- **C19 (d), partial, in the shape of `C19_steady_full`.**  Its hypotheses on the steady pushes with
+`WellFormedMux .syntax` in place of `LegalMux` (first share of every transmission ≥ 8 bytes), plus
+`hagree` (see `C19_steady_gap_transmissions`), plus "no recorder script" read off the context after
+the warm-up.  Conclusion: the packets of the steady pushes are `Steady`; if the whole run completes,
+no handler was constructed, the table has the same number of slots, every slot has the same kind,
+PSI buffer contents, `Buffering` state and table version as after the warm-up; and no step over the
+steady packets has `mayAlloc`.  (`WF`/`Realises` of the warm-up are not needed once `hagree` is
+assumed.) -/
+theorem C19_steady_partial (cfg : App.Cfg) (evs : List Event) (tbl : Nat → Bytes) (warm steady : List Bytes)
+    (pks0 pks : List Pk) (t : Tab App.Handler) (c : App.Ctx) (tcf : Tab App.Handler × App.Ctx)
+    (hsc : c.cfg.script = [])
+    (hf0 : frameAll warm 0 = .ok pks0)
+    (hrun : App.runApp cfg warm = .ok (t, c))
+    (hf : frameAll (warm ++ steady) 0 = .ok (pks0 ++ pks))
+    (hin : StableInputWith (WellFormedMux .syntax) evs tbl t pks)
+    (hagree : ∀ pk ∈ pks,
+      (tablePid (run initRoute evs) pk.pid = true
+        ∧ ∃ h, t.get pk.pid = some h ∧ Lemmas.C10.QuiescentH (Lemmas.C10.versionOf (tbl pk.pid)) h)
+      ∨ (tablePid (run initRoute evs) pk.pid = false ∧ ∃ h, t.get pk.pid = some h ∧ psiOf h = none))
+    (hfin : App.runApp cfg (warm ++ steady) = .ok tcf) :
+    Steady t pks ∧ tcf.2.nextTag = c.nextTag ∧ tcf.1.length = t.length
+      ∧ (∀ p, slotKey tcf.1 p = slotKey t p) ∧ (∀ p, psiBuf tcf.1 p = psiBuf t p)
+      ∧ runMayAlloc (t, c) pks = false := by
+  -- the packets of the steady pushes alone
+  obtain ⟨pb, hpb⟩ := Lemmas.C19d.frameAll_total steady (0 + (warm.map List.length).sum)
+  have happ := Lemmas.C19d.frameAll_append warm steady 0 pks0 pb hf0 hpb
+  rw [hf] at happ
+  have hpks : pks = pb := List.append_cancel_left (R.ok_inj happ)
+  subst hpks
+  have hlen := Lemmas.C19d.frameAll_len steady _ pks hpb
+  have hst : Steady t pks := C19_steady_gap_transmissions evs tbl t pks hin hlen hagree
+  -- the steady pushes, run from the state after the warm-up
+  unfold App.runApp at hrun hfin
+  rw [Lemmas.C19d.pushAll_append, hrun, R.ok_bind] at hfin
+  have hall : ∀ b ∈ steady, ∀ bs pks', frame b bs = .ok pks' → Steady t pks' := by
+    intro b hb bs pks' hf'
+    obtain ⟨base', a, ha, hsub⟩ := Lemmas.C19d.frameAll_mem steady _ pks hpb b hb
+    exact steady_of_frame_base t b base' a ha (fun pk hm => hst pk (hsub pk hm)) bs pks' hf'
+  obtain ⟨a1, a2, a3, a4⟩ := steady_state_all_pushes steady t c _ tcf hsc hall hfin
+  exact ⟨hst, a2, a1, a3, a4, steady_run_mayAlloc_false pks t c hsc hst⟩
+
+/-- **`C19_steady_partial` is not vacuous**: its hypotheses hold on the control probe F14c (warm-up
+`f14Warm`; steady pushes `f14St1`, `f14cSt2`, `f14St3`: twelve packets — five ordinary PAT v0
+repetitions, three PMT v0 repetitions, four elementary-stream continuations), so its conclusion holds
+there; in particular `nextTag` stays 3. -/
+theorem C19_steady_partial_instance :
+    ∃ t c tcf, App.runApp {} [Lemmas.C19d.f14Warm] = .ok (t, c)
+      ∧ App.runApp {} ([Lemmas.C19d.f14Warm]
+          ++ [Lemmas.C19d.f14St1, Lemmas.C19d.f14cSt2, Lemmas.C19d.f14St3]) = .ok tcf
+      ∧ StableInputWith (WellFormedMux .syntax) Lemmas.C19d.f14Hist Lemmas.C19d.f14Tbl t
+          Lemmas.C19d.f14cSteadyPks
+      ∧ StableInput Lemmas.C19d.f14Hist Lemmas.C19d.f14Tbl t Lemmas.C19d.f14cSteadyPks
+      ∧ Steady t Lemmas.C19d.f14cSteadyPks ∧ tcf.2.nextTag = c.nextTag ∧ c.nextTag = 3
+      ∧ tcf.1.length = t.length ∧ (∀ p, slotKey tcf.1 p = slotKey t p)
+      ∧ runMayAlloc (t, c) Lemmas.C19d.f14cSteadyPks = false := by
+  have h0 : frameAll [Lemmas.C19d.f14Warm] 0 = .ok Lemmas.C19d.f14WarmPks := by decide +kernel
+  obtain ⟨pall, h1, hk⟩ := Lemmas.C19d.chk_ok _ _ Lemmas.C19d.f14cCheck_true
+  obtain ⟨tc0, h2, hk⟩ := Lemmas.C19d.chk_ok _ _ hk
+  obtain ⟨tc1, _, hk⟩ := Lemmas.C19d.chk_ok _ _ hk
+  obtain ⟨tc2, _, hk⟩ := Lemmas.C19d.chk_ok _ _ hk
+  obtain ⟨tc3, h5, hk⟩ := Lemmas.C19d.chk_ok _ _ hk
+  simp only [Bool.and_eq_true, beq_iff_eq, Bool.not_eq_true', List.isEmpty_iff] at hk
+  obtain ⟨⟨⟨⟨⟨⟨⟨⟨⟨b1, b3⟩, _⟩, _⟩, _⟩, _⟩, _⟩, _⟩, b9⟩, b10⟩ := hk
+  subst b1
+  obtain ⟨q0, q1, q2⟩ := Lemmas.C19d.f14AgreeB_sound tc0.1 b9
+  obtain ⟨_, _, _, _, _, _, _, hp⟩ := Lemmas.C19d.f14c_transmissions
+  obtain ⟨v0, v1⟩ := Lemmas.C19d.f14_versions
+  obtain ⟨tp0, tp1, tp2⟩ := Lemmas.C19d.f14_tablePids
+  have hcont : ∀ pk ∈ Lemmas.C19d.f14cSteadyPks, tc0.1.contains pk.pid = true := by
+    intro pk hpk
+    rcases hp pk hpk with e | e | e <;> rw [e]
+    · obtain ⟨hd, hg, _⟩ := q0; exact (Tab.contains_eq_true_iff _ _).2 ⟨hd, hg⟩
+    · obtain ⟨hd, hg, _⟩ := q1; exact (Tab.contains_eq_true_iff _ _).2 ⟨hd, hg⟩
+    · obtain ⟨hd, hg, _⟩ := q2; exact (Tab.contains_eq_true_iff _ _).2 ⟨hd, hg⟩
+  have hin := Lemmas.C19d.f14c_stable tc0.1 hcont
+  have hagree : ∀ pk ∈ Lemmas.C19d.f14cSteadyPks,
+      (tablePid (run initRoute Lemmas.C19d.f14Hist) pk.pid = true
+        ∧ ∃ h, tc0.1.get pk.pid = some h
+            ∧ Lemmas.C10.QuiescentH (Lemmas.C10.versionOf (Lemmas.C19d.f14Tbl pk.pid)) h)
+      ∨ (tablePid (run initRoute Lemmas.C19d.f14Hist) pk.pid = false
+        ∧ ∃ h, tc0.1.get pk.pid = some h ∧ psiOf h = none) := by
+    intro pk hpk
+    rcases hp pk hpk with e | e | e <;> rw [e]
+    · exact Or.inl ⟨tp0, by
+        have : Lemmas.C19d.f14Tbl 0 = Lemmas.C19d.patSecV0 := rfl
+        rw [this, v0]; exact q0⟩
+    · exact Or.inl ⟨tp1, by
+        have : Lemmas.C19d.f14Tbl 0x100 = Lemmas.C19d.pmtSecV0 := rfl
+        rw [this, v1]; exact q1⟩
+    · exact Or.inr ⟨tp2, q2⟩
+  obtain ⟨c1, c2, c3, c4, _, c6⟩ := C19_steady_partial {} Lemmas.C19d.f14Hist Lemmas.C19d.f14Tbl
+    [Lemmas.C19d.f14Warm] [Lemmas.C19d.f14St1, Lemmas.C19d.f14cSt2, Lemmas.C19d.f14St3] _ _ tc0.1 tc0.2
+    tc3 b10 h0 h2 h1 hin hagree h5
+  exact ⟨tc0.1, tc0.2, tc3, h2, h5, hin, stableInput_of_wellFormed _ _ _ _ hin, c1, c2,
+    congrArg Prod.fst b3, c3, c4, c6⟩
+
+end InputLevel
+
 
 end Ts.Props.C19
